@@ -91,6 +91,16 @@ pub(crate) fn event_enter(precedence: u8) {
     });
 }
 
+/// `L<n>`: an iteration of the operator loop of the `generate_ast` that was entered with the precedence of ordinal n.
+#[inline]
+pub(crate) fn event_loop(precedence: u8) {
+    EVENTS.with(|e| {
+        if let Some(log) = e.borrow_mut().as_mut() {
+            log.push(format!("L{}", precedence));
+        }
+    });
+}
+
 #[inline]
 pub(crate) fn event_token<T: std::fmt::Debug>(token: &T) {
     EVENTS.with(|e| {
